@@ -10,7 +10,7 @@ META = {
     'technique': 'CFG must-pass-through / dominance rules on update_file (both hash comparisons before replace_file, '
                  'non-empty patch list), who-may-call rule for writers of the local file, replace protocol shape, '
                  'exit classification (fall-back or integrity error), definite-assignment and unguarded-unpack audit, '
-                 'import-provider resolution for the hash constructors, path rule for malformed index entries; the roles of the locals (content, hash functions, patch table) are inferred from the calls; handler-coverage rule for decode errors of the local copy and the index; byte-faithful-stream rule over every stream constructor on the content path (open, gzip.open, io.TextIOWrapper, gzip.GzipFile ...: binary, or text with the encoding of the hash functions and newline handling that neither translates nor splits at a lone CR); update_file interpreted (sa.heap) on 84 index scenarios with streams, downloads, hashes and patch application as a model in which contents are named by their hashes (history with a recurring content, one malformed entry at every position, missing fields); format-arity rule for the messages of refusals',
+                 'import-provider resolution for the hash constructors, path rule for malformed index entries; the roles of the locals (content, hash functions, patch table) are inferred from the calls; handler-coverage rule for decode errors of the local copy and the index; byte-faithful-stream rule over every stream constructor on the content path (open, gzip.open, io.TextIOWrapper, gzip.GzipFile ...: binary, or text with the encoding of the hash functions and newline handling that neither translates nor splits at a lone CR); update_file interpreted (sa.heap) on 84 index scenarios with streams, downloads, hashes and patch application as a model in which contents are named by their hashes (history with a recurring content, one malformed entry at every position, missing fields); format-arity rule for the messages of refusals; replace_file interpreted on a model file system (names and files, buffered writes, fsync that does not flush the buffer) with a fault at the first write, the last write, the flush on close and the rename, for a present / absent local file with and without a stale temporary; content read from the local copy or a download is not cut with str.splitlines',
     'level_text': 'Static path rules over every path of update_file/replace_file/download_*: the local file is written only by '
                   'replace_file, which update_file reaches only after the patch-hash and result-hash comparisons; every other exit '
                   'is the up-to-date return, a full download or an integrity error; temporaries are removed in finally; no local is '
